@@ -4,5 +4,5 @@ CONSTANTS
   MaxOps = 4
   SetOrder = FALSE
   Timestamps = TRUE
-  ComponentMemo = FALSE
+  ComponentMemo = TRUE
 INVARIANT ContentIsFunctionOfModel
